@@ -22,7 +22,8 @@ ASSUMPTIONS = ["SchedModel (vp/model.py) is the specification of the pending set
                "(time, tag) event", "the unit driver advances time one smallest step at a time and consumes due events the way "
                "node.cpp does (advance() only when scheduled now)"]
 FLOORS = {"native_gated_wakeups_with_pending_requests": {"quick": 200, "thorough": 4000}, "unit_sequences": {"quick": 20000, "thorough": 500000}, "unit_queries": {"quick": 60000, "thorough": 2000000},
-          "graph_sched_queries": {"quick": 3000, "thorough": 40000}, "graph_wakeups": {"quick": 800, "thorough": 10000}}
+          "graph_sched_queries": {"quick": 3000, "thorough": 40000}, "graph_wakeups": {"quick": 800, "thorough": 10000},
+          "dynamic_child_scheduler_requests_honoured": {"quick": 300, "thorough": 5000}}
 BATCH = 25
 
 ALPHABET = ([f"s{d}{t}" for d in (-1, 0, 1, 2, 3) for t in ("", "@a", "@b")] + [f"n{d}{t}" for d in (-1, 0, 1) for t in ("", "@a")]
@@ -226,7 +227,13 @@ def gen_graph_case(rng, name):
 
 def generate(rng, tier, seed):
     n = scaled(300 if tier == "quick" else 5000)
-    return [gen_graph_case(rng, f"c18_{seed}_{k}") for k in range(n)]
+    # scheduler-using nodes inside the children of dynamic owners (one schedule slot of the owner for all children): keyed map,
+    # reduction and dynamic-list map - decided by the C02 trace oracle (every pending time of a live child's node wakes it)
+    from .c02 import gen_listmap_timers, gen_reduce_timers, gen_map_start_timers
+    extra = []
+    for k in range(n // 6):
+        extra.append((gen_listmap_timers, gen_reduce_timers, gen_map_start_timers)[k % 3](rng, f"c18_{seed}_dyn{k}"))
+    return [gen_graph_case(rng, f"c18_{seed}_{k}") for k in range(n)] + extra
 
 
 def compare_sched(case, run, mr):
@@ -252,6 +259,11 @@ def compare_sched(case, run, mr):
 
 
 def check(case, tr):
+    if case.meta.get("kind2") == "reduce_timers":
+        from .c02 import check_reduce_timers
+        r = check_reduce_timers(case, tr)
+        r.counters = {"dynamic_child_scheduler_requests_honoured": sum(v for k, v in r.counters.items() if k.endswith("honoured"))}
+        return r
     res = Result(signature=case.text().split("\n", 1)[1])
     if tr.build_error:
         res.violations.append(Violation(f"valid program rejected at build: {tr.build_error}"))
